@@ -23,26 +23,73 @@ type c13Call struct {
 	ID   int64
 	Mk   func() *gast.Call
 	Vars []string // variables occurring in the arguments
+	// Use, when set, is the expression placed in the rules (the counted call as receiver of a further call)
+	Use func(rt *rapid.T) (gast.Expr, gast.Type)
+	// RecvVar, when set, is the variable the call is made on: an assignment to it or below it is
+	// accepted as an invalidation event
+	RecvVar string
+	Bool    bool
+}
+
+// c13Stir lists, per counted call, variables that the expression enclosing the call depends on while the
+// call itself does not: assigning them re-evaluates the enclosing expression, not the call.
+var c13Stir = map[int64][]string{16: {"F.S"}, 17: {"F.S"}}
+
+func c13Sub(recv gast.Expr, name string, id int64, more ...gast.Expr) *gast.Call {
+	return &gast.Call{Recv: recv, Name: name, Args: append([]gast.Expr{gast.I(id)}, more...)}
+}
+
+func c13Kids(i int64) gast.Expr {
+	return &gast.Index{X: &gast.Call{Recv: gast.P("F"), Name: "Kids"}, Idx: gast.I(i)}
 }
 
 var c13Calls = []c13Call{
-	{1, func() *gast.Call { return &gast.Call{Recv: gast.P("F"), Name: "P", Args: []gast.Expr{gast.I(1)}} }, nil},
-	{2, func() *gast.Call { return &gast.Call{Recv: gast.P("F"), Name: "PB", Args: []gast.Expr{gast.I(2)}} }, nil},
+	{1, func() *gast.Call { return &gast.Call{Recv: gast.P("F"), Name: "P", Args: []gast.Expr{gast.I(1)}} }, nil, nil, "", false},
+	{2, func() *gast.Call { return &gast.Call{Recv: gast.P("F"), Name: "PB", Args: []gast.Expr{gast.I(2)}} }, nil, nil, "", true},
 	{3, func() *gast.Call {
 		return &gast.Call{Recv: gast.P("F"), Name: "PV", Args: []gast.Expr{gast.I(3), gast.P("F", "I64")}}
-	}, []string{"F.I64"}},
+	}, []string{"F.I64"}, nil, "", false},
 	{4, func() *gast.Call {
 		return &gast.Call{Recv: gast.P("F"), Name: "PV", Args: []gast.Expr{gast.I(4), gast.P("F", "Sub", "X")}}
-	}, []string{"F.Sub.X"}},
+	}, []string{"F.Sub.X"}, nil, "", false},
 	{5, func() *gast.Call {
 		return &gast.Call{Recv: gast.P("F"), Name: "PS", Args: []gast.Expr{gast.I(5), gast.P("F", "S")}}
-	}, []string{"F.S"}},
+	}, []string{"F.S"}, nil, "", false},
 	{6, func() *gast.Call {
 		return &gast.Call{Recv: gast.P("F"), Name: "PV", Args: []gast.Expr{gast.I(6), gast.P("F", "Arr").At(gast.I(1))}}
-	}, []string{"F.Arr[1]"}},
+	}, []string{"F.Arr[1]"}, nil, "", false},
 	{7, func() *gast.Call {
 		return &gast.Call{Recv: gast.P("F"), Name: "PV", Args: []gast.Expr{gast.I(7), &gast.Bin{Op: gast.OpAdd, L: gast.P("F", "I64"), R: gast.P("F", "M").At(gast.S("a"))}}}
-	}, []string{"F.I64", `F.M["a"]`}},
+	}, []string{"F.I64", `F.M["a"]`}, nil, "", false},
+	// other receiver shapes: an element selected from a call result, a call result, a nested variable,
+	// a slice element, a map entry; a counted call that is itself the receiver of a further call
+	{8, func() *gast.Call { return c13Sub(c13Kids(0), "PX", 8) }, nil, nil, "", false},
+	{9, func() *gast.Call { return c13Sub(c13Kids(1), "PBX", 9) }, nil, nil, "", true},
+	{10, func() *gast.Call {
+		return c13Sub(&gast.Index{X: &gast.Call{Recv: gast.P("F"), Name: "Table"}, Idx: gast.S("k")}, "PX", 10)
+	}, nil, nil, "", false},
+	{11, func() *gast.Call {
+		return c13Sub(&gast.Call{Recv: gast.P("F"), Name: "Mk", Args: []gast.Expr{gast.I(1)}}, "PX", 11)
+	}, nil, nil, "", false},
+	{12, func() *gast.Call { return c13Sub(gast.P("F", "Sub"), "PX", 12) }, nil, nil, "F.Sub", false},
+	{13, func() *gast.Call { return c13Sub(gast.P("F", "Subs").At(gast.I(0)), "PX", 13) }, nil, nil, "F.Subs", false},
+	{14, func() *gast.Call { return c13Sub(gast.P("F", "MSub").At(gast.S("a")), "PBX", 14) }, nil, nil, "F.MSub", true},
+	{15, func() *gast.Call { return c13Sub(c13Kids(0), "PVX", 15, gast.P("F", "I64")) }, []string{"F.I64"}, nil, "", false},
+	{16, func() *gast.Call { return c13Sub(c13Kids(0), "PLabel", 16) }, nil, func(rt *rapid.T) (gast.Expr, gast.Type) {
+		inner := c13Sub(c13Kids(0), "PLabel", 16)
+		if rapid.Bool().Draw(rt, "label_use") {
+			return &gast.Call{Recv: inner, Name: "Len"}, gast.TInt
+		}
+		// the enclosing call depends on F.S; the counted call inside it does not
+		return &gast.Call{Recv: inner, Name: "HasPrefix", Args: []gast.Expr{gast.P("F", "S")}}, gast.TBool
+	}, "", false},
+	{17, func() *gast.Call { return c13Sub(gast.P("F", "Sub"), "PLabel", 17) }, nil, func(rt *rapid.T) (gast.Expr, gast.Type) {
+		inner := c13Sub(gast.P("F", "Sub"), "PLabel", 17)
+		if rapid.Bool().Draw(rt, "label_use") {
+			return &gast.Call{Recv: inner, Name: "Len"}, gast.TInt
+		}
+		return &gast.Call{Recv: inner, Name: "HasSuffix", Args: []gast.Expr{gast.P("F", "S")}}, gast.TBool
+	}, "F.Sub", false},
 }
 
 func c13ByID(id int64) *c13Call {
@@ -73,8 +120,12 @@ var c13UnrelatedForget = []string{"F.I32", "F.S2", "F.U16", "Nothing", "G.I64", 
 
 func c13ValueExpr(rt *rapid.T, calls []*c13Call, label string) (gast.Expr, gast.Type) {
 	c := calls[rapid.IntRange(0, len(calls)-1).Draw(rt, label)]
+	if c.Use != nil {
+		e, ty := c.Use(rt)
+		return &gast.Frozen{X: e}, ty
+	}
 	call := &gast.Frozen{X: c.Mk()}
-	if c.ID == 2 {
+	if c.Bool {
 		return call, gast.TBool
 	}
 	return call, gast.TInt
@@ -123,10 +174,12 @@ func c13Cond(rt *rapid.T, calls []*c13Call) gast.Expr {
 func c13Action(rt *rapid.T, calls []*c13Call, self string) gast.Stmt {
 	switch rapid.IntRange(0, 9).Draw(rt, "action") {
 	case 0, 1:
-		// invalidation: assignment to a variable occurring in some call's arguments
+		// invalidation: assignment to a variable occurring in some call's arguments (or in the
+		// expression enclosing the call)
 		var vars []string
 		for _, c := range calls {
 			vars = append(vars, c.Vars...)
+			vars = append(vars, c13Stir[c.ID]...)
 		}
 		if len(vars) > 0 {
 			v := vars[rapid.IntRange(0, len(vars)-1).Draw(rt, "ev_var")]
@@ -204,6 +257,9 @@ func c13IsEvent(s gast.Stmt, c *c13Call, text string) bool {
 			if v == dst {
 				return true
 			}
+		}
+		if c.RecvVar != "" && strings.HasPrefix(dst, c.RecvVar) {
+			return true
 		}
 	case *gast.CallStmt:
 		if call, ok := x.X.(*gast.Call); ok && call.Recv == nil && (call.Name == "Forget" || call.Name == "Changed") {
